@@ -11,7 +11,7 @@
 //!   non-cryptographic mixing function is used.
 
 /// Maximal transcript length (bytes). Exceeding it is a modelling error.
-pub const CAP: usize = 160;
+pub const CAP: usize = 112;
 const OUT: usize = 64;
 
 pub trait Hasher {
@@ -128,33 +128,23 @@ mod oracle {
 
 #[cfg(kani)]
 pub mod oracle {
+    //! Loop-free on purpose (fixed number of slots, unrolled by macro): the
+    //! harnesses run with a small global unwinding bound.
     use super::{CAP, OUT};
 
     /// Maximal number of distinct queries per harness.
-    pub const SLOTS: usize = 24;
+    pub const SLOTS: usize = 16;
     const WORDS: usize = CAP / 16;
 
-    #[derive(Clone, Copy)]
-    struct Slot {
-        kind: u8,
-        len: usize,
-        data: [u128; WORDS],
-        lo: u128,
-        mid: [u128; 2],
-        out: [u8; OUT],
-    }
-
-    const EMPTY: Slot = Slot {
-        kind: 0,
-        len: 0,
-        data: [0; WORDS],
-        lo: 0,
-        mid: [0; 2],
-        out: [0; OUT],
-    };
-
+    // Struct-of-arrays, only ever indexed by constants (see `unrolled!`): a
+    // symbolic index into an array of structs is very expensive for CBMC.
     static mut N: usize = 0;
-    static mut TABLE: [Slot; SLOTS] = [EMPTY; SLOTS];
+    static mut KIND: [u8; SLOTS] = [0; SLOTS];
+    static mut LEN: [usize; SLOTS] = [0; SLOTS];
+    static mut DATA: [[u128; WORDS]; SLOTS] = [[0; WORDS]; SLOTS];
+    static mut LO: [u128; SLOTS] = [0; SLOTS];
+    static mut MID: [[u128; 2]; SLOTS] = [[0; 2]; SLOTS];
+    static mut HI: [u128; SLOTS] = [0; SLOTS];
 
     /// Number of distinct oracle queries made so far (for harness witnesses).
     pub fn queries() -> usize {
@@ -167,42 +157,76 @@ pub mod oracle {
         u128::from_le_bytes(w)
     }
 
+    macro_rules! unrolled {
+        ($i:ident, $body:block) => {
+            unrolled!(@ $i, $body, 0, 1, 2, 3, 4, 5, 6, 7, 8, 9, 10, 11, 12, 13, 14, 15);
+        };
+        (@ $i:ident, $body:block, $($n:literal),*) => {
+            $( { let $i: usize = $n; $body } )*
+        };
+    }
+
+    fn same_words(a: &[u128; WORDS], b: &[u128; WORDS]) -> bool {
+        a[0] == b[0]
+            && a[1] == b[1]
+            && a[2] == b[2]
+            && a[3] == b[3]
+            && a[4] == b[4]
+            && a[5] == b[5]
+            && a[6] == b[6]
+    }
+
     pub fn query(kind: u8, data: &[u8; CAP], len: usize) -> [u8; OUT] {
-        let mut words = [0u128; WORDS];
-        let mut i = 0;
-        while i < WORDS {
-            words[i] = word(data, i);
-            i += 1;
-        }
+        let words: [u128; WORDS] = [
+            word(data, 0),
+            word(data, 1),
+            word(data, 2),
+            word(data, 3),
+            word(data, 4),
+            word(data, 5),
+            word(data, 6),
+        ];
         unsafe {
             let n = N;
-            let mut i = 0;
-            while i < n {
-                let s = &TABLE[i];
-                if s.kind == kind && s.len == len && s.data == words {
-                    return s.out;
+            let mut hit = false;
+            let mut w = [0u128; 4];
+            unrolled!(i, {
+                if i < n
+                    && !hit
+                    && KIND[i] == kind
+                    && LEN[i] == len
+                    && same_words(&DATA[i], &words)
+                {
+                    hit = true;
+                    w = [LO[i], MID[i][0], MID[i][1], HI[i]];
                 }
-                i += 1;
+            });
+            if !hit {
+                assert!(n < SLOTS, "verif_model::hash oracle table overflow");
+                w = kani::any();
+                unrolled!(j, {
+                    if j < n {
+                        kani::assume(w[0] != LO[j]);
+                        kani::assume(w[1] != MID[j][0] || w[2] != MID[j][1]);
+                    }
+                });
+                unrolled!(k, {
+                    if k == n {
+                        KIND[k] = kind;
+                        LEN[k] = len;
+                        DATA[k] = words;
+                        LO[k] = w[0];
+                        MID[k] = [w[1], w[2]];
+                        HI[k] = w[3];
+                    }
+                });
+                N = n + 1;
             }
-            assert!(n < SLOTS, "verif_model::hash oracle table overflow");
-            let out: [u8; OUT] = kani::any();
-            let lo = word(&out, 0);
-            let mid = [word(&out[16..], 0), word(&out[16..], 1)];
-            let mut j = 0;
-            while j < n {
-                kani::assume(lo != TABLE[j].lo);
-                kani::assume(mid != TABLE[j].mid);
-                j += 1;
-            }
-            TABLE[n] = Slot {
-                kind,
-                len,
-                data: words,
-                lo,
-                mid,
-                out,
-            };
-            N = n + 1;
+            let mut out = [0u8; OUT];
+            out[..16].copy_from_slice(&w[0].to_le_bytes());
+            out[16..32].copy_from_slice(&w[1].to_le_bytes());
+            out[32..48].copy_from_slice(&w[2].to_le_bytes());
+            out[48..].copy_from_slice(&w[3].to_le_bytes());
             out
         }
     }
